@@ -748,6 +748,10 @@ class Interp:
             if not args:
                 return o
             raise Unsupported('constructor %s/%d' % (n, len(args)))
+        if braced and n in self.w.known_types and n not in self.w.classes:
+            # a `using X = std::tuple<...>` alias
+            self.fire('alias-as-tuple')
+            return tuple(args)
         if n.endswith('Error') or n.startswith('E'):
             return Obj(n, {'msg': args[0] if args else ''})
         raise Unsupported('construct ' + n)
@@ -1177,7 +1181,10 @@ class Interp:
     def ev_Num(self, e):
         return self.literal(e)
     def ev_Str(self, e):
-        return e.value
+        v = e.value
+        if '\\' in v:
+            v = v.replace('\\n', '\n').replace('\\t', '\t').replace('\\"', '"').replace('\\\\', '\\')
+        return v
     def ev_Chr(self, e):
         return e.value.replace('\\n', '\n')
     def ev_BoolLit(self, e):
@@ -1328,8 +1335,14 @@ class Interp:
         if op == '/':
             return div(l, r)
         if op == '%':
+            if isinstance(l, FormatObj):
+                l.args.append(r)
+                return l
             return mod(l, r)
         if op in ('<', '>', '<=', '>=', '==', '!='):
+            if isinstance(l, PyModel) or isinstance(r, PyModel) or (isinstance(l, tuple) and l and l[0] == 'iter') or (isinstance(r, tuple) and r and r[0] == 'iter'):
+                eqv = (l == r)
+                return eqv if op == '==' else (not eqv)
             if l is None or r is None or isinstance(l, Obj) or isinstance(r, Obj):
                 if op == '==':
                     return l is r or (l in (None, 0) and r in (None, 0))
@@ -1461,6 +1474,8 @@ class Interp:
             if isinstance(arr, (Cell, FieldCell)):
                 # pointer indexing p[i]
                 raise Unsupported('pointer indexing')
+            if isinstance(arr, PyModel):
+                return (lambda: arr.get_item(self, i)), (lambda v: arr.set_item(self, i, v))
             if isinstance(arr, Mat):
                 return (lambda: arr.get(i)), (lambda v: arr.set(i, None, v))
             if isinstance(arr, (list, DataView)):
@@ -1490,6 +1505,8 @@ class Interp:
     def ev_Index(self, e):
         arr = self.ev(e.e)
         i = self.ev(e.i)
+        if isinstance(arr, PyModel):
+            return arr.get_item(self, i)
         if isinstance(arr, Mat):
             return arr.get(i)
         if isinstance(arr, (list, tuple, str, DataView)):
@@ -1510,7 +1527,7 @@ class Interp:
             return BoundMethod(o, e.name)
         if isinstance(o, tuple) and e.name in ('first', 'second'):
             return o[0 if e.name == 'first' else 1]
-        if isinstance(o, (Mat, Cx, str, Opaque, list, tuple, Stream, CommaInit)):
+        if isinstance(o, (Mat, Cx, str, Opaque, list, tuple, Stream, CommaInit, FormatObj, PyModel)):
             return BoundMethod(o, e.name)
         raise Unsupported('member %s of %r' % (e.name, o))
 
@@ -1665,6 +1682,15 @@ class Interp:
                 if name == 'what':
                     return o.f.get('msg', '')
             raise Unsupported('method %s::%s not found' % (o.cls, name))
+        if isinstance(o, FormatObj):
+            if name == 'str':
+                return o.result()
+            raise Unsupported('format.' + name)
+        if isinstance(o, PyModel):
+            f = getattr(o, 'm_' + name.replace('operator[]', 'index'), None)
+            if f is None:
+                raise Unsupported('modelled object %s has no method %s' % (type(o).__name__, name))
+            return f(self, *args)
         if isinstance(o, CommaInit):
             if name == 'finished':
                 return o.finish()
@@ -2026,7 +2052,24 @@ class Interp:
             return A()[0]
         if s in ('std::ostringstream', 'std::stringstream'):
             return Stream()
+        if s == 'boost::format':
+            return FormatObj(A()[0])
+        if s in ('std::setprecision', 'std::setw', 'std::setfill'):
+            a = A()
+            return Opaque('%s(%s)' % (s, a[0]))
         return NotImplemented
+
+class FormatObj:
+    """boost::format(fmt) % a % b ... : the formatted text is represented by (fmt, args)"""
+    def __init__(self, fmt):
+        self.fmt, self.args = fmt, []
+    def result(self):
+        return ('format', self.fmt, tuple(self.args))
+
+class PyModel:
+    """library object modelled by an assumed contract written in Python (e.g. SLHAea containers as ghost maps).
+    method calls dispatch to m_<name>(interp, *args); indexing to get_item/set_item"""
+    pass
 
 class CommaInit:
     def __init__(self, m):
